@@ -47,6 +47,24 @@ CLAIMED = {
     "C13": ("CrossHair/z3 over the expiry index of a stub clock: every point between two consecutive clock reads of the real parser (real rule base) on fixed texts; the parser runs untraced, the solver covers all k",
             "Trusted: the parser reads time only through ctparse.timers.perf_counter; CrossHair's NoTracing semantics. Bounds: texts 'tomorrow 8pm', '9 9', '9 9 9' (quick) + 'mon 8', '9', '9 9 9 9' (thorough); constant scorer; integer clock ticks for timers.timeout.",
             "§5 C13"),
+    "C09": ("z3 regular-expression theory on translations of the 41 live rule patterns (token lemmas, unbounded strings) + CrossHair on RegexMatch span trimming + API-level differential over symbolic pool indices",
+            "Trusted: regex engine contract; \\w modelled up to U+024F; translator validated against every real match on corpus texts on each run. Bounds: EMBED pools 12 expressions x 0..2 inert words each side (2 words quick / 3 thorough).",
+            "§5 C09"),
+    "C12": ("CrossHair/z3: FRAME clause of the WF family (arguments incl. spans untouched, no aliasing), stream interleaving under every 8-step schedule, two-call history forms, model frame; API-level history over symbolic pool indices",
+            "Not applicable inside this property: OS threads, PYTHONHASHSEED, fresh-process equality (no installed engine makes them solver variables). Bounds: toy registry for interleaving; one earlier call at API level; quick: 1 argument-shape tuple per rule.",
+            "§5 C12"),
+    "C14": ("CrossHair/z3: SELECT on scripted streams with symbolic real scores, DEDUP inside STREAM for every scorer order, score formula with stubbed log (argument in (0,1]); ground check of the shipped model's parameters",
+            "Trusted: floats as reals (|score| <= 1e6). Bounds: streams <= 4 candidates; toy registry; texts <= 8 chars for the score formula.",
+            "§5 C14"),
+    "C15": ("CrossHair/z3 symbolic execution of the real search functions: STACK-GRAPH over every adjacency table, STACK-ADJ over symbolic spans, WINDOW, PREFILTER, APPLY, COVER, STREAM (FullyReduced <= streamed <= Derivable, TRACE, for every scorer order); FRAME for every rule wrapper",
+            "Trusted: toy registry restricted to what FRAME/WF establish for real rules. Bounds: n <= 4 matches (5 thorough) in STACK-GRAPH; sequences <= 4, patterns <= 3; STREAM 3 matches, first 3 (quick) / 5 (thorough) scorer values symbolic, depths 0/1/10.",
+            "§5 C15"),
+    "C16": ("E4 shadow execution of nb_estimator over z3 terms (log/exp uninterpreted) vs. textbook formulas; CrossHair on n-gram/count/vocabulary plumbing and the score formula",
+            "Not applicable inside: pickle/bz2 save-reload. Assumes both classes occur in the training set. Bounds: shapes up to 4 features x 2+2 aggregate documents (quick), 5 x 3+3 (thorough); counts arbitrary.",
+            "§5 C16"),
+    "C17": ("CrossHair on make_partial_rule_dataset with a scripted candidate stream; E4/z3 nlsat: duplication monotonicity as a polynomial inequality obtained by running the real likelihood/prior constructors in log-of-product normal form",
+            "Bounds: <= 2 candidates, productions <= 3; MONO for traces with <= 2 (quick) / <= 3 (thorough) distinct n-gram features.",
+            "§5 C17"),
 }
 
 NOT_YET = {}
